@@ -271,7 +271,14 @@ class SimBackend(TextQueryBackend):
         return queries
 
     def finalize_query_st(self, rule: Any, query: Any, index: int, state: ConversionState) -> Any:
-        return f"ST(index={state.processing_state.get('index', 'none')})[{query}]"
+        # the tracking data a backend can read from the pipeline after it was applied to the rule:
+        # explicitly named applied items (auto-generated identifiers depend on random names) and the
+        # field mapping table
+        p = self.last_processing_pipeline
+        applied = sorted(i for i in p.applied_ids if not re.fullmatch(r"[0-9a-f]{16}", i))
+        fmap = sorted((str(k), sorted(map(str, v))) for k, v in p.field_mappings.items())
+        return (f"ST(index={state.processing_state.get('index', 'none')} applied={applied} "
+                f"fieldmap={fmap})[{query}]")
 
     def finalize_output_st(self, queries: list[Any]) -> Any:
         return queries
